@@ -10,19 +10,24 @@ variable {SP DV : Type} {hash : SP → JobId}
 def docFor (v : SP) (s : List (Op SP DV)) : Prop :=
   (∃ k x r, s = .docSet v k x :: r) ∨ (∃ r, s = .docGet v :: r)
 
+/-- the operation in progress is the whole-document assignment `open_job(v).doc = d` -/
+def asgFor (v : SP) (s : List (Op SP DV)) : Prop :=
+  ∃ d r, s = .docAssign v d :: r
+
 def jobOp (v : SP) (s : List (Op SP DV)) : Prop :=
-  docFor v s ∨ ∃ r, s = .init v :: r
+  docFor v s ∨ (∃ r, s = .init v :: r) ∨ asgFor v s
 
 /-- the operation in progress (head of the script) fits the program counter -/
 def HeadOk (hash : SP → JobId) : Phase SP DV → List (Op SP DV) → Prop
   | .fin, _ => True
   | .proj _, s => ∃ r, s = .project :: r
   | .len, s => ∃ r, s = .len :: r
-  | .lite v, s => docFor v s
+  | .lite v, s => docFor v s ∨ asgFor v s
   | .dload v, s => docFor v s
   | .ini _ v, s => jobOp v s
   | .save _ i .sp c, s => ∃ v, c = .spc v ∧ hash v = i ∧ jobOp v s
-  | .save _ i .doc _, s => ∃ v k x r, s = .docSet v k x :: r ∧ hash v = i
+  | .save _ i .doc c, s => (∃ v k x r, s = .docSet v k x :: r ∧ hash v = i) ∨
+      (∃ v d r, s = .docAssign v d :: r ∧ hash v = i ∧ c = .docc d)
 
 theorem headOk_start (sc : List (Op SP DV)) :
     HeadOk hash (AState.start sc).phase (AState.start sc).script := ⟨sc, rfl⟩
@@ -35,9 +40,10 @@ theorem headOk_startNext (st : AState SP DV) : HeadOk hash (startNext st).phase 
     cases op with
     | project => exact ⟨rest, heq⟩
     | len => exact ⟨rest, heq⟩
-    | init v => exact Or.inr ⟨rest, heq⟩
-    | docSet v k x => exact Or.inl ⟨k, x, rest, heq⟩
-    | docGet v => exact Or.inr ⟨rest, heq⟩
+    | init v => exact Or.inr (Or.inl ⟨rest, heq⟩)
+    | docSet v k x => exact Or.inl (Or.inl ⟨k, x, rest, heq⟩)
+    | docGet v => exact Or.inl (Or.inr ⟨rest, heq⟩)
+    | docAssign v d => exact Or.inr ⟨d, rest, heq⟩
 
 theorem headOk_finishOp (st : AState SP DV) : HeadOk hash (finishOp st).phase (finishOp st).script :=
   headOk_startNext _
@@ -46,16 +52,31 @@ theorem headOk_fail (st : AState SP DV) (w : String) : HeadOk hash (st.fail w).p
   trivial
 
 theorem headOk_afterInit {st : AState SP DV} {v : SP} (h : jobOp v st.script) :
-    HeadOk hash (afterInit st v).phase (afterInit st v).script := by
+    HeadOk hash (afterInit hash st v).phase (afterInit hash st v).script := by
   unfold afterInit
   split
   · rename_i w k x r heq
-    rcases h with (⟨k', x', r', h⟩ | ⟨r', h⟩) | ⟨r', h⟩ <;> rw [heq] at h <;> cases h
+    rcases h with (⟨k', x', r', h⟩ | ⟨r', h⟩) | ⟨r', h⟩ | ⟨d', r', h⟩ <;> rw [heq] at h <;> cases h
     exact Or.inl ⟨k, x, r, heq⟩
   · rename_i w r heq
-    rcases h with (⟨k', x', r', h⟩ | ⟨r', h⟩) | ⟨r', h⟩ <;> rw [heq] at h <;> cases h
+    rcases h with (⟨k', x', r', h⟩ | ⟨r', h⟩) | ⟨r', h⟩ | ⟨d', r', h⟩ <;> rw [heq] at h <;> cases h
     exact Or.inr ⟨r, heq⟩
+  · rename_i w d r heq
+    rcases h with (⟨k', x', r', h⟩ | ⟨r', h⟩) | ⟨r', h⟩ | ⟨d', r', h⟩ <;> rw [heq] at h <;> cases h
+    exact Or.inr ⟨v, d, r, heq, rfl, rfl⟩
   · exact headOk_finishOp _
+
+theorem headOk_docStart {st : AState SP DV} {v : SP} (h : docFor v st.script ∨ asgFor v st.script) :
+    HeadOk hash (docStart hash st v).phase (docStart hash st v).script := by
+  unfold docStart
+  split
+  · rename_i w d r heq
+    rcases h with (⟨k', x', r', h⟩ | ⟨r', h⟩) | ⟨d', r', h⟩ <;> rw [heq] at h <;> cases h
+    exact Or.inr ⟨v, d, r, heq, rfl, rfl⟩
+  · rename_i hna
+    rcases h with h | ⟨d', r', h⟩
+    · exact h
+    · exact absurd h (hna v d' r')
 
 /-- `HeadOk` is preserved by every transition, whatever the primitive answered -/
 theorem headOk_resume {st : AState SP DV} (h : HeadOk hash st.phase st.script) (r : Res SP DV) :
@@ -71,8 +92,8 @@ theorem headOk_resume {st : AState SP DV} (h : HeadOk hash st.phase st.script) (
     rw [hph] at h
     simp only [resume, hph]
     split
-    · exact h
-    · exact Or.inl h
+    · exact headOk_docStart h
+    · exact h.elim Or.inl (fun h => Or.inr (Or.inr h))
   | ini n v =>
     rw [hph] at h
     simp only [resume, hph, resumeIni]
@@ -109,7 +130,7 @@ theorem headOk_resume {st : AState SP DV} (h : HeadOk hash st.phase st.script) (
       | exact headOk_finishOp _ | exact headOk_fail _ _
       | (rename_i w k x r heq
          rcases h with ⟨k', x', r', h⟩ | ⟨r', h⟩ <;> rw [heq] at h <;> cases h
-         exact ⟨v, k, x, r, heq, rfl⟩)
+         exact Or.inl ⟨v, k, x, r, heq, rfl⟩)
   | len =>
     simp only [resume, hph]
     split
